@@ -110,7 +110,7 @@ func ExtractAlternate(c pdf.Cursor, obj pdf.Object, _ bool) (*Alternate, error) 
 		return nil, pdf.Error("missing Image stream in alternate image dictionary")
 	}
 	if isImageMask, _ := c.Boolean(stm.Dict["ImageMask"]); isImageMask {
-		mask, err := pdf.Decode(c, imgObj, ExtractMask)
+		mask, err := pdf.Decode(c, imgObj, extractMaskNoAlternates)
 		if err != nil {
 			return nil, fmt.Errorf("invalid Image: %w", err)
 		}
@@ -118,7 +118,7 @@ func ExtractAlternate(c pdf.Cursor, obj pdf.Object, _ bool) (*Alternate, error) 
 		mask.Alternates = nil
 		img = mask
 	} else {
-		d, err := pdf.Decode(c, imgObj, ExtractDict)
+		d, err := pdf.Decode(c, imgObj, extractDictNoAlternates)
 		if err != nil {
 			return nil, fmt.Errorf("invalid Image: %w", err)
 		}
